@@ -119,7 +119,7 @@ class Inst:
 
 ACTIVE_EXCEPT = {"sample": {1}, "sample3": {1}}
 UNCHECKED = {"gate": {0, 1}, "halfgate": {1}, "sched": {0}}
-SCHEDULER_OPS = {"src", "ticker", "delay", "sched"}
+SCHEDULER_OPS = {"src", "ticker", "beacon", "delay", "sched"}
 
 
 @dataclass
@@ -415,7 +415,7 @@ def simulate(flat: Flat, emulate_stale=False, emulate_sampled_start=False, prese
                     request(i, s, start, script_at(i, s, q)[0], started=False)
             elif pos < len(sc):
                 request(i, s, start, script_at(i, s, pos)[0], started=False)
-        elif i.op == "ticker":
+        elif i.op in ("ticker", "beacon"):
             s.st = 0
             if int(i.kw.get("count", 1)) > 0:
                 request(i, s, start, start, started=False)
@@ -630,7 +630,7 @@ def simulate(flat: Flat, emulate_stale=False, emulate_sampled_start=False, prese
                         s.pos += 1
                         if int(i.kw.get("mode", 0)) == 0 and s.pos < len(sc):
                             request(i, s, t, script_at(i, s, s.pos)[0])
-                elif op == "ticker":
+                elif op in ("ticker", "beacon"):       # (a beacon has no output: the logged beat number stands in for it)
                     out = s.st
                     s.st += 1
                     if s.st < int(i.kw.get("count", 1)):
@@ -673,7 +673,7 @@ def simulate(flat: Flat, emulate_stale=False, emulate_sampled_start=False, prese
                     out = None
                 else:
                     raise RuntimeError("model: op " + op)
-                if out is not None and op not in ("src", "ticker", "pass", "count", "delay", "sched", "tobool"):
+                if out is not None and op not in ("src", "ticker", "beacon", "pass", "count", "delay", "sched", "tobool"):
                     out %= WRAP
                 if op == "acc":
                     s.st = out
